@@ -23,7 +23,7 @@ type hookCtl struct {
 	plan     []wproto.PlanStep
 	planIdx  int
 	unforced bool
-	released bool // the call is over: nobody is held at the gate any more
+	released bool                     // the call is over: nobody is held at the gate any more
 	watch    func(point, item string) // called for every event (under the lock, before the gate)
 }
 
